@@ -7,6 +7,12 @@ from ..extract import (HEADER, ExtractError, Tr, ast_dump, body_of, find_ifs, if
 
 NAME = "Conn"
 
+# clang node id of an `if` condition -> name of the guard generated from it; CAS: the conditions that are a
+# compare-and-swap gate on `state_` (-> the state they store).  Filled by `generate()`; read by vlib/gen/connskel.py,
+# which names the branches of its statement skeletons after the guards located here.
+SITES = {}
+CAS = {}
+
 POLL = {"POLLIN": 1, "POLLPRI": 2, "POLLOUT": 4, "POLLERR": 8, "POLLHUP": 16, "POLLNVAL": 32, "POLLRDHUP": 8192}
 
 
@@ -24,6 +30,8 @@ def enum_order(docs, name):
 
 
 def generate():
+    SITES.clear()
+    CAS.clear()
     docs = ast_dump("muduo/net/TcpConnection.cc", "muduo::net::TcpConnection")
     out = [HEADER % "muduo/net/TcpConnection.cc, TcpConnection.h, Channel.cc", "namespace MuduoVerif.Gen.Conn\n"]
     states = enum_order(docs, "StateE")
@@ -39,6 +47,7 @@ def generate():
         t = Tr(sym, consts)
         c = cond if cond is not None else if_cond(locate_if(fn, *locate, index=index))
         out.append(prop_def(name, params, unparen(t.expr(c)), doc))
+        SITES[c.get("id")] = name
 
     ST = ("st", "StateE")
     # send(StringPiece) / send(Buffer*): the state test
@@ -117,6 +126,8 @@ def generate():
                 if new != "kDisconnecting":
                     raise ExtractError("%s: the new state is %s, the model writes kDisconnecting" % (name, new))
                 out.append(prop_def(name, [ST], "st = StateE.%s" % init[0]["referencedDecl"]["name"], doc + " (compare-and-swap)"))
+                SITES[c.get("id")] = name
+                CAS[c.get("id")] = new
                 return True
             cs = strip(c)
             if cs.get("kind") == "CXXMemberCallExpr" and kids(cs) and strip(kids(cs)[0]).get("kind") == "MemberExpr" \
@@ -146,6 +157,8 @@ def generate():
                     raise ExtractError("%s: helper %s: expected `return true` inside the loop and `return false` after it" % (name, hname))
                 t = Tr({var: "st"}, consts)
                 out.append(prop_def(name, [ST], unparen(t.expr(wcond)), doc + " (compare-and-swap loop in `%s`)" % hname))
+                SITES[c.get("id")] = name
+                CAS[c.get("id")] = new
                 return True
         guard(fn, name, [ST], {"state_": "st"}, doc, "state_")
         return False
@@ -307,6 +320,7 @@ def generate():
         e = unparen(t.expr(if_cond(i)))
         out.append("/-- `Channel::handleEventWithGuard`: %s -/\ndef %s (revents : Nat) : Prop := %s\n"
                    "instance : Decidable (%s revents) := by unfold %s; infer_instance\n" % (nm, nm, e, nm, nm))
+        SITES[if_cond(i).get("id")] = nm
         if nm in cbs:
             # the test that guards the callback itself, inside that branch: the channel's CURRENT interest
             # (an earlier callback of the same batch may have changed it) and "a callback is set"
@@ -316,6 +330,7 @@ def generate():
             t2 = Tr({"isNoneEvent()": "noInterest", "isReading()": "reading", "isWriting()": "writing",
                      cbs[nm] + ".operator bool()": "True"}, {})
             e2 = unparen(t2.expr(if_cond(inner[0])))
+            SITES[if_cond(inner[0]).get("id")] = nm + "Sub"
             out.append("/-- `Channel::handleEventWithGuard`: the callback of the %s branch runs only if -/\n"
                        "def %sSub (noInterest reading writing : Bool) : Prop := %s\n"
                        "instance : Decidable (%sSub noInterest reading writing) := by unfold %sSub; infer_instance\n"
